@@ -23,8 +23,8 @@
 
    The switches of `cfg` select between the pinned code and its repairs; their values for
    the tree under test are regenerated from the Go AST (coq/gen/AvahiTable.v). *)
-From Coq Require Import List Bool NArith PArith Arith.
-From Ship Require Import Base.
+From Coq Require Import List Bool NArith PArith Arith FMapPositive.
+From Ship Require Import Base Closure.
 From ShipGen Require Import AvahiTable.
 Import ListNotations.
 Close Scope N_scope.
@@ -501,14 +501,12 @@ Definition loops_le1 (s : state) : bool := Nat.leb (length (loops s)) 1.
    A scenario is a list of environment/API actions; between two actions the goroutines
    take any number of internal steps in any order; after the last action (daemon up) they
    run until nothing is left.  The result is the SET of possible final states. *)
-Fixpoint mem_state (s : state) (l : list state) : bool :=
-  match l with [] => false | x :: r => state_eqb s x || mem_state s r end.
-Definition add_new (acc : list state * list state) (s : state) : list state * list state :=
-  let '(seen, fresh) := acc in
-  if mem_state s seen then acc else (s :: seen, s :: fresh).
+Definition add_new (acc : table state * list state) (s : state) : table state * list state :=
+  let '(t, fresh) := acc in
+  if mem state_eqb state_hash s t then acc else (insert state_hash s t, s :: fresh).
 
-(* closure of a set under internal steps *)
-Fixpoint iclose (cf : cfg) (K fuel : nat) (seen frontier : list state) : list state :=
+(* closure of a set (hash table `seen`, not yet expanded members `frontier`) under internal steps *)
+Fixpoint iclose (cf : cfg) (K fuel : nat) (seen : table state) (frontier : list state) : table state :=
   match fuel with
   | O => seen
   | S f =>
@@ -521,7 +519,8 @@ Fixpoint iclose (cf : cfg) (K fuel : nat) (seen frontier : list state) : list st
       end
   end.
 
-Definition dedup (l : list state) : list state := fst (fold_left add_new l ([], [])).
+Definition dedup (l : list state) : table state * list state :=
+  fold_left add_new l (PositiveMap.empty _, []).
 
 Inductive action := XDown | XUp | XBrowse | XAnnounce | XUnannounce | XShutdown.
 
@@ -538,10 +537,11 @@ Definition act (cf : cfg) (a : action) (s : state) : list state :=
   else [s].
 
 Fixpoint scen (cf : cfg) (K fuel : nat) (acts : list action) (cur : list state) : list state :=
-  let closed := iclose cf K fuel cur cur in
+  let '(t0, fr) := dedup cur in
+  let closed := members (iclose cf K fuel t0 fr) in
   match acts with
   | [] => filter (fun s => match internal cf K s with [] => true | _ => false end) closed
-  | a :: r => scen cf K fuel r (dedup (flat_map (act cf a) closed))
+  | a :: r => scen cf K fuel r (flat_map (act cf a) closed)
   end.
 
 (* the ghost of a scenario, computed from the script alone *)
